@@ -732,3 +732,163 @@ pub fn nearby(ctx: &Ctx) -> Stats {
     })
 }
 
+/// Occupy a given process id with a harmless long-lived process (`sleep`): fork short-lived children until the kernel's
+/// pid counter is just below the target, then start the holder.  Returns the holder if it really got the pid.
+fn occupy_pid(target: u32) -> Option<std::process::Child> {
+    // thread ids come from the same counter as process ids: short-lived threads advance it cheaply
+    let next_id = || -> u32 { std::thread::spawn(|| unsafe { libc::syscall(libc::SYS_gettid) as u32 }).join().unwrap_or(0) };
+    for _cycle in 0..4 {
+        let mut guard = 0u32;
+        loop {
+            guard += 1;
+            if guard > 120_000 {
+                break;
+            }
+            let id = next_id();
+            if id == 0 {
+                return None;
+            }
+            if id < target && target - id <= 1 {
+                // the next few ids: start holders until one lands on the target
+                let mut spare = Vec::new();
+                let mut got = None;
+                for _ in 0..5 {
+                    match std::process::Command::new("sleep").arg("120").stdin(std::process::Stdio::null()).stdout(std::process::Stdio::null()).stderr(std::process::Stdio::null()).spawn() {
+                        Ok(ch) => {
+                            if ch.id() == target {
+                                got = Some(ch);
+                                break;
+                            } else if ch.id() > target {
+                                spare.push(ch);
+                                break;
+                            }
+                            spare.push(ch);
+                        }
+                        Err(_) => break,
+                    }
+                }
+                for mut ch in spare {
+                    let _ = ch.kill();
+                    let _ = ch.wait();
+                }
+                if got.is_some() {
+                    return got;
+                }
+                break; // missed (somebody else took it): another cycle
+            }
+        }
+    }
+    None
+}
+
+/// The earlier run was killed and *its process id is in use again* by an unrelated process when the next run starts
+/// (after a reboot or on a busy machine this is ordinary): anything that decides "the earlier run is still going" from the
+/// mere existence of a process with the recorded id refuses to work or keeps the stale results.
+pub fn pidreuse(ctx: &Ctx) -> Stats {
+    let mut st = Stats::new();
+    let n = ctx.n(2, 8);
+    for idx in 0..n {
+        if ctx.expired() {
+            st.truncated = true;
+            break;
+        }
+        let mut rng = Rng::keyed(ctx.seed, "c17.pidreuse", idx);
+        let sc = Scratch::new(ctx, "c17p");
+        let family = idx % 4;
+        let big: Vec<Rec> = (0..rng.usize(8000, 12000)).map(|i| Rec { id: format!("k{}", i), desc: None, seq: (0..rng.usize(80, 200)).map(|_| *rng.pick(b"ACGT")).collect() }).collect();
+        let small: Vec<Rec> = (0..rng.usize(3, 30)).map(|i| Rec { id: format!("s{}", i), desc: None, seq: (0..rng.usize(20, 120)).map(|_| *rng.pick(b"ACGT")).collect() }).collect();
+        let inp_big = sc.write("big.fa", &ser::to_fasta(&big, &SerOpts::plain()));
+        let inp_small = sc.write("small.fa", &ser::to_fasta(&small, &SerOpts::plain()));
+        let mk = |inp: &str, t: &str| -> (Vec<String>, bool, &'static str, bool) {
+            match family {
+                0 => (sv(&["ctr", "-i", inp, "-k", "12", "-t", t]), true, "kmers.counts", false),
+                1 => (sv(&["cov", "-i", inp, "-k", "9", "-s", "5", "-c", "6", "-t", t]), true, "kmers.vectors", true),
+                2 => (sv(&["comp", "oligo", "-i", inp, "-k", "4", "-t", t]), false, "", true),
+                _ => (sv(&["min", "-i", inp, "-m", "8", "-w", "15", "-p", "s2m", "-t", t]), false, "", false),
+            }
+        };
+        let first = mk(&inp_big, "8");
+        let second = mk(&inp_small, "2");
+        let shared = sc.path("shared");
+        let fresh = sc.path("fresh");
+        let fam_name = ["ctr", "cov", "comp oligo", "min s2m"][family as usize];
+        st.case(true, mix(idx) ^ mix(family + 91));
+        st.class(fam_name);
+        let case = || Json::obj().set("first", Json::s(first.0.join(" "))).set("second", Json::s(second.0.join(" ")));
+        // the earlier run, killed after 30 ms
+        let mut args = first.0.clone();
+        args.push("-o".into());
+        args.push(shared.clone());
+        let killed_pid = match std::process::Command::new(ctx.cli_path()).args(&args).stdin(std::process::Stdio::null()).stdout(std::process::Stdio::null()).stderr(std::process::Stdio::null()).spawn() {
+            Ok(mut ch) => {
+                std::thread::sleep(std::time::Duration::from_millis(30));
+                let pid = ch.id();
+                let _ = ch.kill();
+                let _ = ch.wait();
+                pid
+            }
+            Err(e) => {
+                st.inconclusive(format!("cannot start the CLI: {}", e));
+                continue;
+            }
+        };
+        let holder = occupy_pid(killed_pid);
+        if holder.is_none() {
+            st.inconclusive(format!("could not bring process id {} back into use", killed_pid));
+            continue;
+        }
+        st.class("pid of the killed run in use again");
+        let run = |st: &mut Stats, a: &[String], out: &str| -> Option<bool> {
+            let mut args = a.to_vec();
+            args.push("-o".into());
+            args.push(out.to_string());
+            let r = run_cli(ctx, &args, None, &CliLimits::default());
+            if r.timed_out && !r.cpu_exceeded && !r.stalled {
+                st.inconclusive(format!("CLI watchdog: {}", r.describe()));
+                return None;
+            }
+            Some(r.ok())
+        };
+        let mut failed = false;
+        for (a, out) in [(&second.0, &shared), (&second.0, &fresh)] {
+            match run(&mut st, a, out) {
+                None => {
+                    failed = true;
+                    break;
+                }
+                Some(false) => {
+                    st.violate(&format!("history.cli_run_failed_after_kill:{}", fam_name), format!("{} failed although the earlier run is dead (its pid {} belongs to an unrelated process)", a.join(" "), killed_pid), case());
+                    failed = true;
+                    break;
+                }
+                Some(true) => {}
+            }
+        }
+        if let Some(mut h) = holder {
+            let _ = h.kill();
+            let _ = h.wait();
+        }
+        if failed {
+            continue;
+        }
+        let read = |base: &str| -> Vec<u8> {
+            let p = if second.1 { format!("{}/{}", base, second.2) } else { base.to_string() };
+            std::fs::read(p).unwrap_or_default()
+        };
+        let (a, b) = (read(&shared), read(&fresh));
+        let same = if second.3 { a == b } else { sorted_lines(&a) == sorted_lines(&b) };
+        if !same {
+            st.violate(
+                &format!("history.depends_on_killed_run:pid_in_use:cli.{}", fam_name),
+                format!("after [{}] was killed and its process id {} was taken by an unrelated process, [{}] into the same location gives {} bytes; a fresh location gives {} bytes", first.0.join(" "), killed_pid, second.0.join(" "), a.len(), b.len()),
+                case(),
+            );
+        } else {
+            st.sample(case().set("reused_pid", Json::Int(killed_pid as i128)));
+        }
+        let _ = std::fs::remove_dir_all(&shared);
+        let _ = std::fs::remove_file(&shared);
+    }
+    st
+}
+
